@@ -351,7 +351,12 @@ SPEC = {
     "custom": custom,
     "harness_args": lambda tier, seed: [],
     "rule": "requests = self-contained shader descriptions (resource globals / cbuffers incl. empty ones / static samplers with "
-            "property sets / bindless arrays / 2-D arrays / struct globals holding resources / namespaces; bind group written "
+            "property sets / bindless arrays / 2-D arrays / struct globals holding resources / namespaces; the TYPE of a resource "
+            "global spelled directly or through typedef chains (typedef of the object, of an array of it, of a typedef, const on "
+            "the typedef or on the global, typedefs in a namespace, template argument through a typedef, extern written out, "
+            "array of a typedef'd element, typedef'd array with a declarator dimension) for every kind incl. ConstantBuffer, "
+            "static samplers, buffer addresses and bindless tables; declarations with several declarators (shared attributes, "
+            "per-declarator dimensions / register annotations); bind group written "
             "as attribute, register space, vk::binding or both; explicit indices; helper call graphs with 14 statement shapes "
             "around each mention, default arguments and global initialisers that read resources, forward declarations; "
             "0-4 pipelines: compute, vertex+pixel, mesh+pixel, task+mesh, stage properties in either order, both file "
@@ -360,7 +365,9 @@ SPEC = {
             "reserved in a target, overloaded helpers, name clashes, eight front-end error shapes incl. a second numthreads "
             "attribute) rendered to a file and compiled by the real compile() x {dx, vk, "
             "vk+buffer-address, msl} x {all, one name, no-pipeline}, plus a sweep of every reserved name of hlsl/msl names.rs "
-            "as entry-point and as resource name and an enumeration of ~8800 small inputs; the emitted HLSL is re-parsed with "
+            "as entry-point and as resource name and an enumeration of ~16000 small inputs (every spelling x kind x target); a second "
+            "stream C05.layers sends the resource declarations through the real type_check and compares the layer chain of every "
+            "global's type with the chain the model builds from the spelling; the emitted HLSL is re-parsed with "
             "the real lexer+parser (MSL: text scan) and the property's own oracle compares every metadata entry with the "
             "annotation / declared type / array length of the declaration of that name, counts entries per externally bound "
             "declaration, checks inline constant blocks, stage entry functions + the values of their thread group size "
@@ -380,7 +387,18 @@ SPEC = {
                   "description or UnsupportedObjectType, the Metal export a description or one of UnsupportedObjectType / "
                   "UnsupportedBindGroupIndex / UnboundGlobal, and an exported Metal pipeline has an api slot for every extern "
                   "global its stages reach (fix 2ba03a4); descriptor type and count depend only on declared kind and array "
-                  "layer; non-extern globals are never bound. Used flag (full): the usage fixed point loop terminates (at most n*n modifying passes over n "
+                  "layer; non-extern globals are never bound. Type spellings: a global's type is a chain of layers (array / "
+                  "modifier / object) and the three places that look through it -- process_definition, both analyse_bindings, "
+                  "is_buffer_address -- are modelled as the ordered peel operation lists re-extracted from their source; proved "
+                  "for every well-formed chain (no modifier on a modifier: the registry's assert): both exporters report the "
+                  "descriptor type of the innermost object under at most one array layer and the length of the outermost array "
+                  "layer, wherever modifier layers sit (array of const object = const array of object = const array of const "
+                  "object); for every chain at all the allocator's own peel sees exactly what the reflection's peel sees "
+                  "(unsized arrays excepted: recorded finding) and is_buffer_address is the test the allocator model makes; "
+                  "every type the typer builds for `[const] X g[dims]` over any typedef chain is such a chain with the "
+                  "declarator's dimensions outside the typedefs'; the typed builders equal the builders on peeled "
+                  "declarations, so every module-level statement holds for typed modules; a witness shows the re-ordered peel "
+                  "of seed C05-3 misreads a typedef'd table. Used flag (full): the usage fixed point loop terminates (at most n*n modifying passes over n "
                   "symbols) and equals reachability in the use graph of bodies, default arguments and global initialisers, "
                   "so is_used on Metal holds iff some stage entry point reaches the global (HLSL always reports true). "
                   "Stages: an accepted Pipeline block yields one record per stage property in property order, each pointing "
@@ -399,14 +417,22 @@ SPEC = {
         "register/attribute format strings, entry function names, reserved names, intrinsic function names, and regex facts about "
         "the DescriptorBinding literals, msl generate_pipeline, the HLSL annotation generators, build_pipeline, parse_pipeline / "
         "add_stage, parse_function_attributes, the name lookups of both exporters, simplify_cbuffers, the numthreads printers, "
-        "the formatter's attribute argument precedence and Metal's UnboundGlobal test; Gen.SlotTables, "
-        "Gen.CompileTables, Gen.Reserved",
-        "hand-written Model/Meta.lean, Model/MetaReach.lean, Model/MetaFront.lean, Model/Slots.lean, Model/Names.lean mirror the "
+        "the formatter's attribute argument precedence and Metal's UnboundGlobal test; the symbolic reader of the type peels "
+        "(data flow of the `let` statements between decl.type_id and the matched layer in both analyse_bindings, "
+        "process_definition and is_buffer_address -> lists of PeelOp; statements it does not understand become `unknown`, which "
+        "no theorem accepts) and 8 regex facts around it (count rules, make_const, register_type's modifier assert, typedef = "
+        "declarator over the parsed source type); Gen.SlotTables, Gen.CompileTables, Gen.Reserved",
+        "hand-written Model/Meta.lean, Model/MetaLayers.lean (what one peel operation does to a layer chain; how typedef steps, "
+        "const keyword, storage class and declarator dimensions build a chain), Model/MetaReach.lean, Model/MetaFront.lean, "
+        "Model/Slots.lean, Model/Names.lean mirror the "
         "Rust functions; tied to the code by the correspondence run (model answer == observation of the real compile()) and the "
         "regex facts, not by a proof about Rust",
         "Driver/C05.lean: how a request becomes the models' inputs (declaration order, registry order of structs / globals / "
-        "functions per target, use graph); checked only by the correspondence run",
-        "Spec/Meta.lean: our reader of annotation text, D3D register classes of descriptor types, reachability",
+        "functions per target, use graph, the spelling -> globalTy arguments); checked only by the correspondence run (the "
+        "layer chains by the stream C05.layers against the real type registry)",
+        "Spec/Meta.lean: our reader of annotation text, D3D register classes of descriptor types, reachability; "
+        "Spec/MetaLayers.lean: what a layer chain means for a binding (innermost object under at most one array layer, "
+        "modifiers never matter, count = outermost array length)",
         "harness oracle tables (which emitted HLSL / MSL type may be reported as which DescriptorType; static sampler and "
         "graphics state spellings) written independently of the compiler's tables; evaluator of the emitted numthreads "
         "expressions (literals, named constants, + - * /, casts)",
@@ -420,5 +446,9 @@ SPEC = {
         "no-pipeline mode on Metal emits no argument buffers: entries are compared with the input declarations only",
         "name uniqueness is per scope of the name map: bindings are reported by leaf name, so two namespaces can still "
         "contribute one name (recorded finding)",
+        "layer chains are well-formed (no modifier layer directly around a modifier layer): TypeRegistry::register_type asserts "
+        "it (fact modifierNeverWrapsModifier) and the C05.layers oracle checks it on every observed chain; modifier layers carry "
+        "no content in the model (const only is generated; row_major / unorm need matrix / float types no resource global has)",
+        "array dimensions of generated declarations are literals",
     ],
 }
